@@ -41,6 +41,14 @@ CHECKS = {
              "label of ColorPair(that colour, same bg, same large); invalid entries append (text, non-readable constant). Holds for every list, order and mix of entries.",
         ref="DESIGN 3/C12",
         note=TB + "; correctness of make_readable / is_readable themselves is C01/C05/C06"),
+    "C19": dict(
+        technique="static taint analysis (ast): HTML-context classification of every template hole + interprocedural abstraction of hole values (reaching definitions, returns, call-site parameters, dict/list displays) to CONST/ESCAPED/MARKUP/TAINTED",
+        category="other",
+        text="Every value written to a report must be composed of checked template fragments; each hole's context (text, quoted attribute, other) is read from the constant "
+             "HTML around it and its value class is derived through the resolved program, including the closed set of level strings. Decides safety for all strings in all "
+             "user-controlled slots of both generators; a removed or quote-less escape, a new raw field or an unquoted attribute is reported with file:line and the value's origin.",
+        ref="DESIGN 3/C19",
+        note=TB + "; html.escape(quote=True) neutralises & < > \" '; scope = text arriving through the CLI and save_report (internal builders called with forged level strings are out of scope)"),
 }
 
 NOT_APPLICABLE = {
